@@ -320,7 +320,7 @@ def _verdicts(ctx, cases, traces, sumby, mon, acc):
         if s["panic"]:
             keys.append("executor-panic")
         tr = traces[tid]
-        hdr = {k: tr[0][k] for k in ("hosts", "polkind", "poln", "allow", "k", "idem", "policy", "mode", "stmt", "observer") if k in tr[0]}
+        hdr = {k: tr[0][k] for k in ("hosts", "polkind", "poln", "allow", "k", "idem", "policy", "mode", "stmt", "observer", "entries") if k in tr[0]}
         for key in keys:
             perkey[key] += 1
             if perkey[key] > 25:
